@@ -62,7 +62,8 @@ CHECKS = {
              "sqrt(residual_atol)); order / case / pass-through / idempotence identities; dtype, cwd, relation-path, rewritten-relations-file "
              "and command-line-flag twins concrete; the residual refusal is stated as the misfit of the best tensor whether or not the table "
              "determines it (under-determined + redundant supplied sets); non-modulus columns pass through also when zero / below the drop "
-             "tolerance; relation files with blank lines; triclinic (known finding: never refuses).",
+             "tolerance; relation files with blank lines or upper-case component names; the empty supplied set (no modulus column) is refused with "
+             "the rank Warning; triclinic (known finding: never refuses).",
         note="Trusted: exact-LSQ stub as the contract of numpy.linalg.lstsq; the twins (dtype, working directory, file path) are "
              "concrete runs, not solver results. Subsets of supplied components outside the listed families are outside the claim.",
         design="3/C09"),
@@ -73,7 +74,8 @@ CHECKS = {
                   "equations, for the computed frame, sign/order variants and the rotation family of degenerate eigenspaces",
         text="For all real symmetric fourth-rank tensors at once (21 symbolic components) and all 15 shear keys: z3 shows the value "
              "returned by get_target_elastic_modulus equals the target component; requested keys exclude the target; rotated axial "
-             "strains are diag(T^T diag(e) T) with trace preserved and frame-independent as a multiset.",
+             "strains are diag(T^T diag(e) T) with trace preserved and frame-independent as a multiset, also for a single strain triple given as a "
+             "1-D array, tuple or list.",
         note="Trusted: exact lift of the LAPACK frame (verified exactly with sympy: M v = lambda v, orthonormal), oracle rotation of the "
              "tensor by the harness's own 4-index contraction. Float non-orthogonality (1e-16) is outside.",
         design="3/C03"),
@@ -87,7 +89,7 @@ CHECKS = {
              "polynomial identities in all spectrum/strain symbols; on every explored path where approximate-equality de-duplication "
              "merges two different parameter sets z3 shows they agree to 1e-9, and the whole calculation runs to completion on every such "
              "path (request sets with mixed shear keys included); a task list calculated a second time with other strains returns the values of "
-             "a fresh list.",
+             "a fresh list; a request handed over as a one-shot iterable gives the results of the same request as a list.",
         note="Request sets of size 3-20 other than the listed ones are outside; identity obligations assume generic strain fractions "
              "(structural de-dup cut), the merge-tolerance obligations remove that assumption for small request sets.",
         design="3/C04"),
@@ -113,12 +115,14 @@ CHECKS = {
         technique="AST -> QF_FP translation of the Bose-factor kernels (exp axiomatised), decided by cvc5; symbolic pipeline for "
                   "T=0 masking and absence of undefined values; forking execution of the task de-duplication (coinciding strain fractions) with "
                   "the whole pipeline run on every path; concrete dtype check of the eigen-frame",
-        text="Partial: in IEEE binary64 semantics cvc5 shows no finite (omega in [30,1500] cm^-1, T in [0.01,3000] K) makes Q, Q1 or Q2 "
+        text="Partial: in IEEE binary64 semantics cvc5 shows no (omega in [30,1500] cm^-1, T any positive double up to 3000 K) makes Q, Q1 or Q2 "
              "NaN/inf and that Q1, Q2 vanish (<=1e-290) above the exp overflow threshold; symbolically no 0/0 or x/0 survives into any "
              "assembled component and the T=0 row carries no thermal term; for mixed shear keys the calculation completes with defined "
              "values on every path of the approximate-equality task merging (equal / nearly equal axial strain fractions); no undefined value for "
              "temperature grids starting at 0 K, without a 0 K point (T_MIN > 0) and with the 0 K point not in first position; loading the QHA "
-             "layer completes for every DT in 0.5..500 K and DELTA_P in 0.1..5 GPa (finite-domain symbolic values through the real loader).",
+             "layer completes for every DT in 0.5..500 K and DELTA_P in 0.1..5 GPa (finite-domain symbolic values through the real loader) and whichever "
+             "single documented QHA setting the user leaves out (finite-domain symbolic index, real apply_default_config + loader); an interpolation order "
+             "spelled 3.0 (a JSON integer) runs like 3 (twin).",
         note="The configuration sweep 'every schema-valid configuration x interpolator completes' is library behaviour (qha, scipy, LAPACK) "
              "and outside; numpy.exp is modelled by the listed axioms (each a true fact of a faithful exp); eigen-frame real-ness is a "
              "concrete check over the 15 keys.",
@@ -217,7 +221,8 @@ CHECKS = {
              "mismatches; evec_sort (n=2,3; rational orthonormal real bases with signed permutations and rational complex unitary bases with phases "
              "1, i, -1, -i; perturbation box of radius 0.05) returns the expected order on every feasible path of the greedy argmax; "
              "evec_load returns every complex component at its (q, mode, atom, axis) place for files in matdyn layout (token files); integer-valued "
-             "displacement vectors behave like floats (dtype twin); seven dimension-mismatch shapes rejected.",
+             "displacement vectors behave like floats (dtype twin); seven dimension-mismatch shapes rejected; list / tuple / array containers of the two "
+             "bases in any combination sort alike (container twin).",
         note="Outside: dimensions 4-60, unitary bases with irrational entries and general phases for the sort; for evec_load the float() "
              "parsing itself and the digit regexes on symbolic text (q coordinates and frequencies are concrete, pairwise distinct).",
         design="3/C20"),
@@ -230,7 +235,8 @@ CHECKS = {
              "and without static table, crystal system and --cellmass: V, F, P, density carry the A^3 / eV / GPa / g/cm^3 factors once; "
              "P = -grad(FIT(E))/grad(v) (spline-resampled in mode none); F = input energies (none) or the fit at the row's V; "
              "pressure-mode V and F are the same inverse interpolation applied to v and to the fit, rows at the requested pressures; moduli = "
-             "fit of the table at the row's V; VRH and v_p, v_s, v_phi relations; the crystal-system option without a static table is a no-op.",
+             "fit of the table at the row's V; VRH and v_p, v_s, v_phi relations; the crystal-system option without a static table is a no-op; with "
+             "--delta-p-sample = 2 x --delta-p every second row of the pressure grid starting at p_min.",
         note="Grid of 4 points and 5 input volumes (the callback is uniform in these sizes, which is an argument, not a solver result); file "
              "parsing, table printing and kernel numerics outside; stage R runs the real command once per mode.",
         design="3/C18"),
@@ -244,8 +250,9 @@ CHECKS = {
              "value is the spline of the table with temperatures along rows and pressures along columns evaluated at the geotherm row's "
              "(T_i, P_i) for every geotherm point inside the tabulated range (all paths of any data-dependent guard), for default and custom "
              "column names, geotherm columns passed through; the variable's table is read whatever other VAR_tp_* entries exist next to it and in "
-             "whatever order glob lists them (adversarial order stub, concrete twin).",
-        note="Outside: file discovery (glob), table parsing and printing, and everything about the FITPACK spline itself (that it "
+             "whatever order glob lists them (adversarial order stub, concrete twin); what is printed parses back to the table's values and to the "
+             "geotherm's own columns to 1e-12 (printing twin on tables written as the package writes them).",
+        note="Outside: file discovery (glob), table parsing and the text layout, and everything about the FITPACK spline itself (that it "
              "reproduces grid nodes, convergence under refinement: library numerics / asymptotic statement).",
         design="3/C19 (as built: A.4)"),
     "C14": dict(
@@ -256,7 +263,8 @@ CHECKS = {
              "histories (2-3 reads per quantity, 3 access orders, 3 write_output calls, 2 calculators in one process, fill applied twice) "
              "every array observed later equals the one observed first: phonon contribution objects, task-list results, all volume- and "
              "pressure-base quantities, the tables handed to the table writer, the first calculator's results after a second one was built, "
-             "and a symmetry-filled table filled again.",
+             "and a symmetry-filled table filled again (tables satisfying the relations; a table accepted with a misfit eps in [1/1000, 1/10] "
+             "is the known finding: the fill is not idempotent there).",
         note="NOT covered and not coverable by this technique: the interpreter's hash seed, unrelated entries in the working directory and "
              "byte-identical output files are properties of the process environment, not values the code computes with; only re-running the "
              "program varies them (differential re-execution). Histories longer than the listed ones are outside. Related history obligations "
@@ -273,7 +281,7 @@ CHECKS = {
              "the same path held (and was read as) other data sets before (bounded history of 4-6 steps); the `cij fill` command re-emits the "
              "two header lines and the lattice block unchanged, consumes exactly N+1 table lines, forwards its options and emits fill_cij of "
              "the parsed table, also for column spellings the reader accepts (C_11, c2323); a hand-written phonon file with every numeric field "
-             "symbolic (weights and q coordinates included) parses field by field. Known finding: six-decimal re-emission by `cij fill`.",
+             "symbolic (weights and q coordinates included) parses field by field. The volumes re-emitted by `cij fill` read back to the input's (precision twin).",
         note="Outside: numeric precision of the written text and float() parsing themselves (C-level), q coordinates and weights are concrete "
              "in the round trip (%-formatting realises them); for `cij fill` the text produced by pandas' to_string / read by its C parser is replaced "
              "by the contract 'whitespace table <-> frame' (the concrete replay goes through the real text).",
